@@ -45,9 +45,14 @@ def run_one(args):
         # region: a circle (or polygon) somewhere on the image, depth 12 (52" pixels < 120" image pixels)
         reg = Region(maxdepth=12)
         mode = rng.random()
-        if mode < 0.1:
+        if mode < 0.2:
             ra0, dec0 = w.all_pix2world([[shape[1] / 2.0, shape[0] / 2.0]], 0)[0]
-            reg.add_circles(math.radians(ra0), math.radians(dec0), math.radians(5.0))
+            if seed % 2:
+                reg.add_circles(math.radians(ra0), math.radians(dec0), math.radians(5.0))
+            else:                      # the whole sky, stored as coarse pixels
+                reg.add_circles(math.radians(ra0), math.radians(dec0), math.radians(40.0))
+                reg.add_pixels(list(range(48)), 1)
+                reg._renorm()
             rec["whole"] = True
         else:
             cx, cy = rng.uniform(0, shape[1]), rng.uniform(0, shape[0])
